@@ -1,1 +1,697 @@
-//! C20 harnesses.
+//! C20 — multi-image subscription polling (bounded, fair) and per-session reassembly; plus the C01 obligation
+//! "single-session reassembly" (`c01_reassembly_*`).
+//!
+//! A. `c01_reassembly_*`: the real `FragmentAssembler` (HashMap + BufferBuilder) fed 1..=3 frames of one session from a
+//!    256-byte term: frame offsets / payload lengths literal (0/64/128, 32/32/7), FLAGS bytes and payload bytes symbolic.
+//! B. `c20_assembler_*`: two sessions (5 and 9, concrete because SipHash over a symbolic key does not finish), each in
+//!    its own term, 3 + 2 frames, all five FLAGS bytes symbolic, the interleaving order symbolic.
+//!    Oracle for A and B: `Sess` - the reassembly state machine written from the property statement (unfragmented =>
+//!    delivered as is; BEGIN starts a message; middle / END only continue a started message; END delivers the
+//!    concatenation and clears) - and `concat`, the byte-by-byte concatenation of the member fragments' payloads.
+//! C. `c20_poll_*`: the real `Subscription` (dummy conductor handle) over 2 / 3 real `Image`s, each on its own log
+//!    (3 x 64-byte terms + 4096-byte meta data, one struct per log so that every term is a <= 64 element member and
+//!    stays field sensitive at the default setting) with 0..=2 committed frames. Oracle: `reference`, the rotation
+//!    walk written from the property statement (start somewhere, visit every image once in cyclic order, hand each the
+//!    remaining limit), in i64.
+use super::publog::dummy_conductor;
+use super::util::*;
+use crate::concurrent::atomic_buffer::AtomicBuffer;
+use crate::concurrent::logbuffer::header::Header;
+use crate::concurrent::position::UnsafeBufferPosition;
+use crate::fragment_assembler::FragmentAssembler;
+use crate::image::{ControlledPollAction, Image};
+use crate::subscription::Subscription;
+use crate::utils::errors::AeronError;
+use crate::utils::log_buffers::LogBuffers;
+use crate::utils::types::Index;
+use std::ffi::CString;
+use std::mem::ManuallyDrop;
+use std::sync::Arc;
+
+const STREAM: i32 = 1001;
+const TERM_ID: i32 = 77;
+const SID_A: i32 = 5;
+const SID_B: i32 = 9;
+
+fn fixed_random_state() -> std::hash::RandomState {
+    unsafe { std::mem::transmute::<[u64; 2], std::hash::RandomState>([1, 2]) }
+}
+
+fn put_le<const N: usize>(m: &mut [u8], at: usize, b: [u8; N]) {
+    let mut i = 0;
+    while i < N {
+        m[at + i] = b[i];
+        i += 1;
+    }
+}
+
+/// A DATA frame header at `off` with the literal protocol offsets (0 length, 4 version, 5 flags, 6 type, 8 term offset,
+/// 12 session, 16 stream, 20 term id); the payload keeps whatever the memory holds.
+fn put_frame(m: &mut [u8], off: usize, word: i32, flags: u8, session: i32) {
+    put_le(m, off, word.to_le_bytes());
+    m[off + 4] = 0;
+    m[off + 5] = flags;
+    put_le(m, off + 6, 1u16.to_le_bytes());
+    put_le(m, off + 8, (off as i32).to_le_bytes());
+    put_le(m, off + 12, session.to_le_bytes());
+    put_le(m, off + 16, STREAM.to_le_bytes());
+    put_le(m, off + 20, TERM_ID.to_le_bytes());
+}
+
+// ---------------------------------------------------------------------------------------------------------------
+// A / B: fragment assembler
+// ---------------------------------------------------------------------------------------------------------------
+
+/// frame offsets and payload lengths of a session's frames (session B uses the first two offsets with its own lengths)
+const FO: [usize; 3] = [0, 64, 128];
+const LEN_A: [i32; 3] = [32, 32, 7];
+const LEN_B: [i32; 3] = [32, 9, 0];
+const NR: usize = 6; // recorded delegate calls (one more than can legally happen)
+
+/// What the delegate was handed, call by call. `j` is the symbolic probe index: byte j of every delivered message is
+/// recorded, so an unconstrained j gives full content equality.
+struct Got {
+    j: i32,
+    terms: [usize; 2],
+    calls: usize,
+    len: [i32; NR],
+    off: [i32; NR],
+    byte: [u8; NR],
+    sid: [i32; NR],
+    hoff: [i32; NR],
+    in_term: [bool; NR],
+}
+
+impl Got {
+    fn new(j: i32, terms: [usize; 2]) -> Got {
+        Got { j, terms, calls: 0, len: [0; NR], off: [0; NR], byte: [0; NR], sid: [0; NR], hoff: [0; NR], in_term: [false; NR] }
+    }
+    fn note(&mut self, b: &AtomicBuffer, off: Index, len: Index, h: &Header) {
+        let c = self.calls;
+        if c < NR {
+            self.len[c] = len;
+            self.off[c] = off;
+            self.sid[c] = h.session_id();
+            self.hoff[c] = h.offset();
+            let p = b.buffer() as usize;
+            self.in_term[c] = p == self.terms[0] || p == self.terms[1];
+            self.byte[c] = if self.j < len { b.get::<u8>(off + self.j) } else { 0 };
+        }
+        self.calls += 1;
+    }
+}
+
+/// The reassembly state machine of ONE session, from the property statement. `feed` returns the member set of the
+/// message that frame `k` completes, if any.
+#[derive(Copy, Clone)]
+struct Sess {
+    started: bool,
+    cur: [bool; 3],
+}
+
+impl Sess {
+    fn new() -> Sess {
+        Sess { started: false, cur: [false; 3] }
+    }
+    fn feed(&mut self, k: usize, flags: u8) -> Option<[bool; 3]> {
+        let begin = flags & 0x80 != 0;
+        let end = flags & 0x40 != 0;
+        if begin && end {
+            let mut m = [false; 3];
+            m[k] = true;
+            Some(m) // unfragmented: delivered as is, an assembly in progress is not touched
+        } else if begin {
+            self.started = true;
+            self.cur = [false; 3];
+            self.cur[k] = true;
+            None
+        } else if self.started {
+            self.cur[k] = true;
+            if end {
+                let m = self.cur;
+                self.started = false;
+                self.cur = [false; 3];
+                Some(m)
+            } else {
+                None
+            }
+        } else {
+            None // joined mid-message: nothing until the next BEGIN
+        }
+    }
+}
+
+/// Expected deliveries in order.
+struct Want {
+    calls: usize,
+    sess: [usize; NR],
+    members: [[bool; 3]; NR],
+    last: [usize; NR],
+}
+
+impl Want {
+    fn new() -> Want {
+        Want { calls: 0, sess: [0; NR], members: [[false; 3]; NR], last: [0; NR] }
+    }
+    fn push(&mut self, sess: usize, members: [bool; 3], last: usize) {
+        if self.calls < NR {
+            self.sess[self.calls] = sess;
+            self.members[self.calls] = members;
+            self.last[self.calls] = last;
+        }
+        self.calls += 1;
+    }
+}
+
+/// (length, byte j) of the concatenation of the member fragments' payloads
+fn concat(term: &[u8; 256], lens: &[i32; 3], members: &[bool; 3], j: i32) -> (i32, u8) {
+    let mut total = 0;
+    let mut byte = 0u8;
+    let mut k = 0;
+    while k < 3 {
+        if members[k] {
+            if j >= total && j < total + lens[k] {
+                byte = term[FO[k] + 32 + (j - total) as usize];
+            }
+            total += lens[k];
+        }
+        k += 1;
+    }
+    (total, byte)
+}
+
+struct SingleOut {
+    delivered: usize,
+    first_len: i32,
+    joined_mid: bool,
+}
+
+fn reassembly_single(init: Option<isize>) -> SingleOut {
+    pretouch();
+    let mut term = Mem::<256>::any();
+    let flags: [u8; 3] = kani::any();
+    let n: usize = kani::any();
+    kani::assume(n >= 1 && n <= 3);
+    let mut k = 0;
+    while k < 3 {
+        put_frame(&mut term.0, FO[k], 32 + LEN_A[k], flags[k], SID_A);
+        k += 1;
+    }
+    let tb = term.buf();
+    let j: i32 = kani::any();
+    kani::assume(j >= 0 && j < 96);
+    let mut got = Got::new(j, [tb.buffer() as usize, 0]);
+    let mut delegate = |b: &AtomicBuffer, off: Index, len: Index, h: &Header| got.note(b, off, len, h);
+    // never dropped: BufferBuilder's Drop runs a byte loop over its capacity in the dev profile
+    let mut asm = ManuallyDrop::new(FragmentAssembler::new(&mut delegate, init));
+    {
+        let mut handler = asm.handler();
+        let mut hdr = Header::new(TERM_ID, 256);
+        hdr.set_buffer(tb);
+        k = 0;
+        while k < 3 {
+            if k < n {
+                hdr.set_offset(FO[k] as i32);
+                handler(&tb, FO[k] as i32 + 32, LEN_A[k], &hdr);
+            }
+            k += 1;
+        }
+    }
+    let mut want = Want::new();
+    let mut s = Sess::new();
+    k = 0;
+    while k < 3 {
+        if k < n {
+            if let Some(m) = s.feed(k, flags[k]) {
+                want.push(0, m, k);
+            }
+        }
+        k += 1;
+    }
+    assert!(got.calls == want.calls, "C01: the delegate is called exactly once per completed message and never for anything else");
+    let c: usize = kani::any();
+    kani::assume(c < want.calls);
+    let (len, byte) = concat(&term.0, &LEN_A, &want.members[c], j);
+    assert!(got.len[c] == len, "C01: delivered length is the sum of the message's fragment payload lengths, in offer order");
+    if j < len {
+        assert!(got.byte[c] == byte, "C01: delivered bytes are the concatenation of the message's fragment payloads");
+    }
+    assert!(got.sid[c] == SID_A && got.hoff[c] == FO[want.last[c]] as i32, "C01: the header handed over is that of the message's last fragment");
+    let single = (flags[want.last[c]] & 0xC0) == 0xC0;
+    assert!(got.in_term[c] == single, "C01: unfragmented messages are handed over in place, assembled ones from the session buffer");
+    if single {
+        assert!(got.off[c] == FO[want.last[c]] as i32 + 32, "C01: unfragmented message delivered at its own payload offset");
+    }
+    let (first_len, _) = concat(&term.0, &LEN_A, &want.members[0], 0);
+    SingleOut { delivered: want.calls, first_len: if want.calls > 0 { first_len } else { -1 }, joined_mid: flags[0] & 0x80 == 0 }
+}
+
+/// initial buffer 64: header + first fragment fit exactly, the second and the third fragment each reallocate
+// @verif tier=quick unwind=10 unwindset=dealloc_buffer_aligned:100
+#[kani::proof]
+#[kani::stub(std::hash::RandomState::new, fixed_random_state)]
+fn c01_reassembly_single_session_growth() {
+    let o = reassembly_single(Some(64));
+    kani::cover!(o.delivered == 1 && o.first_len == 71, "[must] three fragments reassembled: growth path of the builder taken twice");
+    kani::cover!(o.delivered == 1 && o.first_len == 64, "[must] two fragments reassembled: growth path of the builder taken");
+    kani::cover!(o.joined_mid && o.delivered == 1 && o.first_len == 39, "[must] mid-message join ignored, the next message start is delivered");
+    kani::cover!(o.delivered == 3, "[must] three unfragmented messages");
+    kani::cover!(o.delivered == 0, "[must] nothing complete: nothing delivered");
+}
+
+/// default initial buffer (4096): no reallocation
+// @verif tier=quick unwind=10
+#[kani::proof]
+#[kani::stub(std::hash::RandomState::new, fixed_random_state)]
+fn c01_reassembly_single_session_default_buffer() {
+    let o = reassembly_single(None);
+    kani::cover!(o.delivered == 1 && o.first_len == 71, "[must] three fragments reassembled");
+    kani::cover!(o.joined_mid && o.delivered == 1 && o.first_len == 39, "[must] mid-message join ignored, the next message start is delivered");
+}
+
+/// initial buffer 32 = header only: the very first fragment reallocates
+// @verif tier=thorough unwind=10 unwindset=dealloc_buffer_aligned:110
+#[kani::proof]
+#[kani::stub(std::hash::RandomState::new, fixed_random_state)]
+fn c01_reassembly_single_session_header_only_buffer() {
+    let o = reassembly_single(Some(32));
+    kani::cover!(o.delivered == 1 && o.first_len == 71, "[must] three fragments reassembled: growth path of the builder taken");
+}
+
+struct TwoOut {
+    delivered: usize,
+    a_len: i32,
+    b_len: i32,
+    interleaved: bool,
+    b_joined_mid: bool,
+}
+
+/// Two sessions interleaved at fragment granularity.
+fn assembler_two_sessions(init: Option<isize>) -> TwoOut {
+    pretouch();
+    let mut ta = Mem::<256>::any();
+    let mut tb = Mem::<256>::any();
+    let fa: [u8; 3] = kani::any();
+    let fb: [u8; 3] = kani::any();
+    let mut k = 0;
+    while k < 3 {
+        put_frame(&mut ta.0, FO[k], 32 + LEN_A[k], fa[k], SID_A);
+        if k < 2 {
+            put_frame(&mut tb.0, FO[k], 32 + LEN_B[k], fb[k], SID_B);
+        }
+        k += 1;
+    }
+    let (ba, bb) = (ta.buf(), tb.buf());
+    // order[s]: the next fragment comes from session A (if it has one left)
+    let order: [bool; 5] = kani::any();
+    let j: i32 = kani::any();
+    kani::assume(j >= 0 && j < 96);
+    let mut got = Got::new(j, [ba.buffer() as usize, bb.buffer() as usize]);
+    let mut delegate = |b: &AtomicBuffer, off: Index, len: Index, h: &Header| got.note(b, off, len, h);
+    let mut asm = ManuallyDrop::new(FragmentAssembler::new(&mut delegate, init));
+    let mut want = Want::new();
+    let mut interleaved = false;
+    {
+        let mut handler = asm.handler();
+        let mut ha = Header::new(TERM_ID, 256);
+        ha.set_buffer(ba);
+        let mut hb = Header::new(TERM_ID, 256);
+        hb.set_buffer(bb);
+        let (mut sa, mut sb) = (Sess::new(), Sess::new());
+        let (mut ia, mut ib) = (0usize, 0usize);
+        let mut s = 0;
+        while s < 5 {
+            let take_a = ib >= 2 || (order[s] && ia < 3);
+            if take_a {
+                // literal frame per arm: the session id the assembler hashes stays a constant
+                match ia {
+                    0 => {
+                        ha.set_offset(0);
+                        handler(&ba, 32, LEN_A[0], &ha);
+                    }
+                    1 => {
+                        ha.set_offset(64);
+                        handler(&ba, 64 + 32, LEN_A[1], &ha);
+                    }
+                    _ => {
+                        ha.set_offset(128);
+                        handler(&ba, 128 + 32, LEN_A[2], &ha);
+                    }
+                }
+                if let Some(m) = sa.feed(ia, fa[ia]) {
+                    want.push(0, m, ia);
+                }
+                interleaved = interleaved || (ia > 0 && ib > 0 && ib < 2);
+                ia += 1;
+            } else {
+                match ib {
+                    0 => {
+                        hb.set_offset(0);
+                        handler(&bb, 32, LEN_B[0], &hb);
+                    }
+                    _ => {
+                        hb.set_offset(64);
+                        handler(&bb, 64 + 32, LEN_B[1], &hb);
+                    }
+                }
+                if let Some(m) = sb.feed(ib, fb[ib]) {
+                    want.push(1, m, ib);
+                }
+                ib += 1;
+            }
+            s += 1;
+        }
+    }
+    assert!(got.calls == want.calls, "C20: each session's completed messages are delivered exactly once and nothing else is");
+    let c: usize = kani::any();
+    kani::assume(c < want.calls);
+    let is_a = want.sess[c] == 0;
+    let (len, byte) = if is_a { concat(&ta.0, &LEN_A, &want.members[c], j) } else { concat(&tb.0, &LEN_B, &want.members[c], j) };
+    assert!(got.sid[c] == if is_a { SID_A } else { SID_B }, "C20: deliveries happen in the order the sessions complete their messages (per-session order kept)");
+    assert!(got.len[c] == len, "C20: delivered length is the sum of that session's fragment payload lengths only");
+    if j < len {
+        assert!(got.byte[c] == byte, "C20: delivered bytes are the concatenation of that session's fragments only (sessions never mix)");
+    }
+    assert!(got.hoff[c] == FO[want.last[c]] as i32, "C20: the header handed over is that of the session's last fragment");
+    // summary for the covers: the first message of each session
+    let (mut a_len, mut b_len) = (-1, -1);
+    let mut i = 0;
+    while i < NR {
+        if i < want.calls {
+            if want.sess[i] == 0 && a_len < 0 {
+                a_len = concat(&ta.0, &LEN_A, &want.members[i], 0).0;
+            }
+            if want.sess[i] == 1 && b_len < 0 {
+                b_len = concat(&tb.0, &LEN_B, &want.members[i], 0).0;
+            }
+        }
+        i += 1;
+    }
+    TwoOut { delivered: want.calls, a_len, b_len, interleaved, b_joined_mid: fb[0] & 0x80 == 0 }
+}
+
+// @verif tier=quick unwind=10 unwindset=dealloc_buffer_aligned:100
+#[kani::proof]
+#[kani::stub(std::hash::RandomState::new, fixed_random_state)]
+fn c20_assembler_two_sessions_interleaved() {
+    let o = assembler_two_sessions(Some(64));
+    kani::cover!(o.interleaved && o.delivered == 2 && o.a_len == 71 && o.b_len == 41, "[must] both multi-fragment messages reassembled from a true interleaving");
+    kani::cover!(o.b_joined_mid && o.b_len < 0 && o.a_len == 71, "[must] session joined mid-message yields nothing while the other session is reassembled");
+    kani::cover!(o.b_joined_mid && o.b_len == 9, "[must] mid-message join ignored, that session's next message start is delivered");
+}
+
+// ---------------------------------------------------------------------------------------------------------------
+// C: Subscription::poll / controlled_poll over several images
+// ---------------------------------------------------------------------------------------------------------------
+
+const T: usize = 64;
+const LOGLEN: usize = 3 * T + 4096;
+const FRAME: i32 = 32; // header-only frames: two fit into a term
+const NI: usize = 3;
+const NC: usize = 8; // recorded handler calls
+const REG: i64 = 9;
+const CORR: [i64; 4] = [11, 12, 13, 14];
+const NOBODY: usize = 9;
+
+/// One log: three terms and the meta data section, contiguous (LogBuffers::new needs one region), every term a
+/// separate <= 64 element member.
+#[repr(C, align(16))]
+struct LogMem {
+    t0: [u8; T],
+    t1: [u8; T],
+    t2: [u8; T],
+    meta: [u8; 4096],
+}
+
+impl LogMem {
+    fn zeroed() -> LogMem {
+        LogMem { t0: [0; T], t1: [0; T], t2: [0; T], meta: [0; 4096] }
+    }
+}
+
+struct Mems {
+    l0: LogMem,
+    l1: LogMem,
+    l2: LogMem,
+    l3: LogMem,
+    c0: Mem<64>,
+    c1: Mem<64>,
+    c2: Mem<64>,
+    c3: Mem<64>,
+}
+
+impl Mems {
+    fn zeroed() -> Mems {
+        Mems { l0: LogMem::zeroed(), l1: LogMem::zeroed(), l2: LogMem::zeroed(), l3: LogMem::zeroed(), c0: Mem::zeroed(), c1: Mem::zeroed(), c2: Mem::zeroed(), c3: Mem::zeroed() }
+    }
+    fn log(&mut self, i: usize) -> &mut LogMem {
+        match i {
+            0 => &mut self.l0,
+            1 => &mut self.l1,
+            2 => &mut self.l2,
+            _ => &mut self.l3,
+        }
+    }
+    fn ctr(&mut self, i: usize) -> &mut Mem<64> {
+        match i {
+            0 => &mut self.c0,
+            1 => &mut self.c1,
+            2 => &mut self.c2,
+            _ => &mut self.c3,
+        }
+    }
+    /// subscriber position of image i as the counter holds it
+    fn position(&self, i: usize) -> i64 {
+        let c = match i {
+            0 => &self.c0,
+            1 => &self.c1,
+            2 => &self.c2,
+            _ => &self.c3,
+        };
+        i64::from_le_bytes([c.0[0], c.0[1], c.0[2], c.0[3], c.0[4], c.0[5], c.0[6], c.0[7]])
+    }
+    fn base(&mut self, i: usize) -> usize {
+        self.log(i) as *mut LogMem as usize
+    }
+}
+
+fn err_handler(_e: AeronError) {}
+
+fn empty_cstring() -> CString {
+    unsafe { CString::from_vec_unchecked(Vec::new()) }
+}
+
+/// A real Image over log i: `words` are the two frame length words (FRAME = committed, 0 = nothing there yet).
+fn image(mem: &mut Mems, i: usize, words: [i32; 2], session: i32) -> Image {
+    let lg = mem.log(i);
+    put_frame(&mut lg.t0, 0, words[0], 0xC0, session);
+    put_frame(&mut lg.t0, 32, words[1], 0xC0, session);
+    let lb = unsafe { LogBuffers::new(lg as *mut LogMem as *mut u8, LOGLEN as isize, T as i32) };
+    let sp = UnsafeBufferPosition::new(mem.ctr(i).buf(), 0);
+    Image::create(session, CORR[i], REG, empty_cstring(), &sp, Arc::new(lb), Box::new(err_handler as fn(AeronError)))
+}
+
+/// frames visible to a reader standing at the start of the term
+fn backlog(words: [i32; 2]) -> i64 {
+    if words[0] > 0 {
+        if words[1] > 0 {
+            2
+        } else {
+            1
+        }
+    } else {
+        0
+    }
+}
+
+fn subscription() -> Subscription {
+    Subscription::new(dummy_conductor(), REG, empty_cstring(), STREAM, -1)
+}
+
+/// What the fragment handler saw during the polls so far.
+struct Seen {
+    bases: [usize; 4],
+    calls: usize,          // in the current poll call
+    per: [i64; 4],         // fragments of image i in the current poll call
+    taken: [i64; 4],       // fragments of image i over all calls
+    last: usize,           // image of the previous fragment in the current call
+    finished: [bool; 4],   // the current call has moved on from image i
+    revisited: bool,       // a fragment of an image arrived after the call had moved on from it
+    in_order: bool,        // every fragment was the next unconsumed frame of its image
+    stranger: bool,        // a fragment from a buffer that is none of the images
+    first: usize,          // image of the first fragment of the current call
+    order: [usize; NC],
+}
+
+impl Seen {
+    fn new(bases: [usize; 4]) -> Seen {
+        Seen { bases, calls: 0, per: [0; 4], taken: [0; 4], last: NOBODY, finished: [false; 4], revisited: false, in_order: true, stranger: false, first: NOBODY, order: [NOBODY; NC] }
+    }
+    fn begin_call(&mut self) {
+        self.calls = 0;
+        self.per = [0; 4];
+        self.last = NOBODY;
+        self.finished = [false; 4];
+        self.first = NOBODY;
+    }
+    fn note(&mut self, b: &AtomicBuffer, off: Index, len: Index, h: &Header) {
+        let p = b.buffer() as usize;
+        let who = if p == self.bases[0] {
+            0
+        } else if p == self.bases[1] {
+            1
+        } else if p == self.bases[2] {
+            2
+        } else if p == self.bases[3] {
+            3
+        } else {
+            NOBODY
+        };
+        if who == NOBODY {
+            self.stranger = true;
+        } else {
+            if self.last != NOBODY && self.last != who {
+                self.finished[self.last] = true;
+            }
+            if self.finished[who] {
+                self.revisited = true;
+            }
+            self.in_order = self.in_order && h.term_offset() as i64 == FRAME as i64 * self.taken[who] && off as i64 == FRAME as i64 * self.taken[who] + 32 && len == 0;
+            self.per[who] += 1;
+            self.taken[who] += 1;
+            self.last = who;
+            if self.first == NOBODY {
+                self.first = who;
+            }
+            if self.calls < NC {
+                self.order[self.calls] = who;
+            }
+        }
+        self.calls += 1;
+    }
+}
+
+/// The rotation walk of the property statement: start at image `start`, visit every image once in cyclic order, hand
+/// each the part of the limit that is left. Returns the fragments per image.
+fn reference(n: usize, start: usize, backlog: &[i64; 4], limit: i64) -> [i64; 4] {
+    let mut out = [0i64; 4];
+    let mut left = if limit > 0 { limit } else { 0 };
+    let mut step = 0;
+    while step < n {
+        let i = (start + step) % n;
+        let c = if backlog[i] < left { backlog[i] } else { left };
+        out[i] = c;
+        left -= c;
+        step += 1;
+    }
+    out
+}
+
+fn min64(a: i64, b: i64) -> i64 {
+    if a < b {
+        a
+    } else {
+        b
+    }
+}
+
+struct PollOut {
+    limit: i32,
+    result: i32,
+    total_backlog: i64,
+    starved: bool, // an image with data got nothing because the limit was used up by images in front of it
+    first: usize,
+    rr: usize,
+}
+
+/// One poll call over n images from a symbolic rotation state: `warm` earlier calls with fragment limit 0 (they move
+/// the starting image and consume nothing), then the call under test with any i32 limit.
+fn poll_once(n: usize, words: [[i32; 2]; 3], controlled: bool) -> PollOut {
+    pretouch();
+    let mut mem = Mems::zeroed();
+    let sessions: [i32; 3] = kani::any();
+    let mut sub = subscription();
+    let mut bl = [0i64; 4];
+    let mut i = 0;
+    while i < n {
+        let img = image(&mut mem, i, words[i], sessions[i]);
+        std::mem::forget(sub.add_image(img));
+        bl[i] = backlog(words[i]);
+        i += 1;
+    }
+    assert!(sub.image_count() == n, "C20: every added image is in the image list");
+    let warm: usize = kani::any();
+    kani::assume(warm <= n);
+    let mut nothing = |_: &AtomicBuffer, _: Index, _: Index, _: &Header| {};
+    i = 0;
+    while i < warm {
+        let r = sub.poll(&mut nothing, 0);
+        assert!(r == 0, "C20: a poll with fragment limit 0 delivers nothing");
+        i += 1;
+    }
+    let limit: i32 = kani::any();
+    let mut seen = Seen::new([mem.base(0), mem.base(1), mem.base(2), mem.base(3)]);
+    seen.begin_call();
+    let result = if controlled {
+        sub.controlled_poll(
+            |b: &AtomicBuffer, off: Index, len: Index, h: &Header| {
+                seen.note(b, off, len, h);
+                Ok(ControlledPollAction::Continue)
+            },
+            limit,
+        )
+    } else {
+        let mut handler = |b: &AtomicBuffer, off: Index, len: Index, h: &Header| seen.note(b, off, len, h);
+        sub.poll(&mut handler, limit)
+    };
+    let total = bl[0] + bl[1] + bl[2];
+    let lim = if limit > 0 { limit as i64 } else { 0 };
+    assert!(!seen.stranger, "C20: only fragments of the subscription's images are delivered");
+    assert!(seen.calls as i64 == result as i64, "C20: the return value is the number of fragments delivered");
+    assert!(result as i64 <= lim, "C20: at most fragment_limit fragments are delivered in total");
+    assert!(result as i64 == min64(lim, total), "C20: a poll stops only at the limit or when every image has been drained");
+    assert!(!seen.revisited, "C20: an image is polled at most once per call (its fragments are contiguous in the call)");
+    assert!(seen.in_order, "C20: each image's fragments arrive in stream order, each exactly once");
+    let mut matches_some_start = false;
+    let mut starved = false;
+    let mut s = 0;
+    while s < n {
+        let r = reference(n, s, &bl, limit as i64);
+        if r[0] == seen.per[0] && r[1] == seen.per[1] && r[2] == seen.per[2] {
+            matches_some_start = true;
+        }
+        s += 1;
+    }
+    assert!(matches_some_start, "C20: per-image counts are those of one cyclic walk handing each image the remaining limit");
+    i = 0;
+    while i < n {
+        assert!(mem.position(i) == FRAME as i64 * seen.per[i], "C20: each subscriber position advances by exactly the fragments delivered from that image");
+        assert!(seen.per[i] <= min64(bl[i], lim), "C20: an image yields at most what one poll of it with the limit can consume");
+        starved = starved || (bl[i] > 0 && seen.per[i] == 0);
+        i += 1;
+    }
+    std::mem::forget(sub);
+    PollOut { limit, result, total_backlog: total, starved, first: seen.first, rr: warm }
+}
+
+fn any_words() -> [[i32; 2]; 3] {
+    let present: [[bool; 2]; 3] = kani::any();
+    let mut w = [[0i32; 2]; 3];
+    let mut i = 0;
+    while i < 3 {
+        w[i][0] = if present[i][0] { FRAME } else { 0 };
+        w[i][1] = if present[i][1] { FRAME } else { 0 };
+        i += 1;
+    }
+    w
+}
+
+// @verif tier=quick unwind=10
+#[kani::proof]
+fn c20_poll_two_images_any_backlog() {
+    let o = poll_once(2, any_words(), false);
+    kani::cover!(o.starved && o.limit > 0, "[must] limit reached before all images polled");
+    kani::cover!(o.rr == 2 && o.first == 0 && o.result > 0, "[must] wrap-around of the round-robin index: starting image back at the first");
+    kani::cover!(o.rr == 1 && o.first == 1 && o.result == 4, "[must] start at the second image, wrap to the first, everything drained");
+    kani::cover!(o.limit < 0 && o.total_backlog == 4, "[must] negative limit with data everywhere");
+}
